@@ -35,7 +35,12 @@ def opC03Acc (args : List W) : String :=
           match preparePatternText s mc with
           | .panic => "PANIC"
           | .any => "T"
-          | .text _ => spec
+          | .text t =>
+            match Re.parseRE t with
+            | some r =>
+              -- the parsed expression must be the expression the mask stands for (theorem B, re-checked per line)
+              if isRegexPattern s || r == maskAst (tokenize s) mc then outBool (r.search u) else "bad-ast"
+            | none => "F"
       model ++ " " ++ spec
     | _, _, _, _ => "bad-decode"
   | _ => "bad-arity"
